@@ -28,7 +28,7 @@ from concurrent.futures import ThreadPoolExecutor
 
 warnings.filterwarnings('ignore')
 REPO = '/repo'
-CHECK = '/verif/check.py'
+CHECK = os.environ.get('SURVEY_CHECK', '/verif/check.py')  # a snapshot copy may be surveyed while /verif is edited
 PROPS = ['C%02d' % i for i in range(1, 20)]
 
 FAMILIES = [
@@ -134,8 +134,12 @@ def run(m):
         open(os.path.join(d, 'pyins', fn), 'w').write(text + '\n')
         verdict = {}
         for p in PROPS:
-            r = subprocess.run(['/venv/bin/python', '-I', CHECK, p, '--root', d, '--no-evidence'],
-                               capture_output=True, text=True, timeout=900)
+            try:
+                r = subprocess.run(['/venv/bin/python', '-I', CHECK, p, '--root', d,
+                                    '--no-evidence'], capture_output=True, text=True, timeout=900)
+            except subprocess.TimeoutExpired:
+                verdict[p] = 'timeout'
+                continue
             if r.returncode != 0:
                 verdict[p] = r.returncode
                 if r.returncode == 1:
@@ -162,7 +166,7 @@ if __name__ == '__main__':
     sys.stdout.flush()
     os.makedirs('/verif/out', exist_ok=True)
     caught = err = surv = 0
-    with open('/verif/out/mutation_survivors.txt', 'a') as fh, \
+    with open(os.environ.get('SURVEY_OUT', '/verif/out/mutation_survivors.txt'), 'a') as fh, \
             ThreadPoolExecutor(max_workers=int(os.environ.get('SURVEY_WORKERS', '14'))) as ex:
         for (fn, kind, old, new), verdict in ex.map(run, muts):
             if any(v == 1 for v in verdict.values()):
